@@ -35,6 +35,31 @@ fn int_profile() -> Profile {
     p
 }
 
+fn grid_forms() -> &'static Vec<String> {
+    static CELL: std::sync::OnceLock<Vec<String>> = std::sync::OnceLock::new();
+    CELL.get_or_init(|| {
+        let num: Vec<&str> = crate::vocab::funcs(Ev::Num).iter().map(|f| f.name).collect();
+        let mut v: Vec<String> = Vec::new();
+        for f in crate::vocab::funcs(Ev::F64) {
+            if !num.contains(&f.name) || f.canon == "ilog" || f.canon == "w" {
+                continue;
+            }
+            match f.arity {
+                crate::vocab::Arity::One => v.push(format!("{}(K)", f.name)),
+                crate::vocab::Arity::Two => {
+                    for o in ["2", "3", "0.5"] {
+                        v.push(format!("{}({},K)", f.name, o));
+                        v.push(format!("{}(K,{})", f.name, o));
+                    }
+                }
+                _ => {}
+            }
+        }
+        v.extend(["K^0.5", "K^2", "K^3", "2^K", "K/3", "K*0.1", "K%7", "1/K", "K°", "K!", "-K^0.5"].iter().map(|s| s.to_string()));
+        v
+    })
+}
+
 fn shared_profile() -> Profile {
     let mut p = Profile::full(Ev::F64);
     p.lits = ["0", "1", "2", "3", "5", "7", "10", "12", "100", "0.5", "1.5", "2.5", ".25", "3.", "0.1", "4", "6", "20", "1000000", "8"].iter().map(|s| s.to_string()).collect();
@@ -256,10 +281,20 @@ impl Prop for C15Prop {
             Sub { name: "f64-number", kind: SubKind::Random { cases: tier.pick(300_000, 15_000_000), len: 160 } },
             Sub { name: "complex-f64", kind: SubKind::Enum { count: real_cases().len() as u64 } },
             Sub { name: "decimal-f64", kind: SubKind::Random { cases: tier.pick(100_000, 3_000_000), len: 80 } },
+            Sub { name: "f64-number-grid", kind: SubKind::Enum { count: grid_forms().len() as u64 * 3000 } },
             Sub { name: "after-failures", kind: SubKind::Enum { count: ((failing_templates(Ev::Num).len() + failing_templates(Ev::I64).len()) * probe_expressions(Ev::I64).len()) as u64 } },
         ]
     }
     fn gen_enum(&self, sub: &str, idx: u64, _tier: Tier) -> Option<Case> {
+        if sub == "f64-number-grid" {
+            // every shared function on every integer 1..3000 (also as second argument, with 2 / 3 / 0.5 as the other one):
+            // sparse last-bit disagreements between two implementations of the same function (sqrt vs pow(x,0.5)) sit at
+            // unremarkable arguments, about one in a thousand
+            let forms = grid_forms();
+            let k = 1 + idx / forms.len() as u64;
+            let f = &forms[(idx % forms.len() as u64) as usize];
+            return Some(Case::new(Ev::F64, f.replace('K', &k.to_string()), Val::F(3.0)));
+        }
         if sub == "after-failures" {
             // agreement must survive a long run of failing calls in either evaluator on the same thread
             let ps = probe_expressions(Ev::I64);
@@ -304,6 +339,9 @@ impl Prop for C15Prop {
         Some(Case::new(ev, s, ph))
     }
     fn check(&self, sub: &str, case: &Case, sc: &mut ShardCtx) -> Result<(), Failure> {
+        if sub == "f64-number-grid" {
+            return self.check("f64-number", case, sc);
+        }
         if sub == "after-failures" {
             if let (Some(which), Some(t)) = (case.aux.first(), case.aux.get(1)) {
                 if which == "number" {
